@@ -7,7 +7,7 @@ SCHEMES = ["http://", "https://", "HTTP://", "HtTpS://", "", "//", "ftp://"]
 AUTHS = ["", "u@", "u:p@", ":p@", "u:@", "@"]
 HOSTS = ["a.com", "A.CoM", "www.a.com", "b.a.co.uk", "xn--tlrama-bvab.fr", "télérama.fr", "TÉLÉRAMA.FR",
          "XN--TLRAMA-BVAB.FR", "xn--zz.fr", "a.com.", "1.2.3.4", "localhost", "xn--www-.example.com",
-         "xn--strae-oqa.de"]
+         "xn--strae-oqa.de", "[::1]", "[2001:DB8::1]"]
 PORTS = ["", ":80", ":443", ":8080", ":0", ":65535", ":"]
 PATHS = ["", "/", "/a", "/a/", "/a/b", "//", "/a//b", "/./", "/a/.", "/a/..", "/a/../", "/a/../b", "/..", "/../a",
          "/a/./b/", "/a/%2E%2E/b", "/a/%2e/", "/a/b/%2E%2E", "/a/%2E", "/a/b/.%2E"]
